@@ -10,3 +10,263 @@ Proof.
   - apply IH.
   - apply IH.
 Qed.
+
+(* ------------------------------------------------------------------------ *)
+(* The coarse polls and the pump never run out of fuel, and the pump delivers
+   the payload: the MODEL side of the script check is total and agrees with the
+   ORACLE side. *)
+From Coq Require Import Arith.
+
+Lemma measure_lt_fuel c s : measure c s + 3 <= poll_fuel s.
+Proof.
+  unfold measure, mw, mr, poll_fuel, bytes_left.
+  destruct (wst s); destruct (cur s); destruct (rst s);
+    repeat match goal with |- context [if ?b then _ else _] => destruct b end; lia.
+Qed.
+
+Lemma step_w_some c s :
+  (wst s = WTry \/ wst s = WClose) -> step_w c s <> None.
+Proof.
+  unfold step_w. intros [->| ->]; [|discriminate].
+  destruct (cur s); [destruct (rest s); discriminate|].
+  destruct (fifo_write c (pp s) (n :: l)) as [[[|k]| | |] p']; discriminate.
+Qed.
+
+Lemma poll_w_loop_total chunks fuel : forall c s,
+  cfg_ok c -> Inv c chunks s -> measure c s < fuel ->
+  exists s', poll_w_loop fuel c s = Some s' /\ Inv c chunks s' /\
+             measure c s' <= measure c s /\
+             ((wst s = WTry \/ wst s = WClose) -> measure c s' < measure c s).
+Proof.
+  induction fuel as [|fuel IH]; intros c s Hc HI Hm; [lia|].
+  cbn [poll_w_loop].
+  assert (Hstop : wst s <> WTry -> wst s <> WClose ->
+     exists s', Some s = Some s' /\ Inv c chunks s' /\ measure c s' <= measure c s /\
+                ((wst s = WTry \/ wst s = WClose) -> measure c s' < measure c s)).
+  { intros H1 H2. exists s. split; [reflexivity|]. split; [assumption|]. split; [lia|].
+    intros [H|H]; contradiction. }
+  destruct (wst s) eqn:Ew; try (apply Hstop; discriminate).
+  - destruct (step_w c s) as [s1|] eqn:Es;
+      [|exfalso; apply (step_w_some c s); auto].
+    destruct (step_w_ok c chunks s s1 Hc HI Es) as [HI1 Hm1].
+    destruct (IH c s1 Hc HI1 ltac:(lia)) as [s' [H1 [H2 [H3 _]]]].
+    exists s'. split; [assumption|]. split; [assumption|]. split; [lia|]. intros _; lia.
+  - destruct (step_w c s) as [s1|] eqn:Es;
+      [|exfalso; apply (step_w_some c s); auto].
+    destruct (step_w_ok c chunks s s1 Hc HI Es) as [HI1 Hm1].
+    destruct (IH c s1 Hc HI1 ltac:(lia)) as [s' [H1 [H2 [H3 _]]]].
+    exists s'. split; [assumption|]. split; [assumption|]. split; [lia|]. intros _; lia.
+Qed.
+
+Lemma poll_fuel_spur s :
+  poll_fuel (mkX (cur s) (rest s) (pp s) (recvd s) WTry (rst s)) = poll_fuel s.
+Proof. reflexivity. Qed.
+
+Lemma poll_w_total chunks c s :
+  cfg_ok c -> Inv c chunks s ->
+  exists s', poll_w c s = Some s' /\ Inv c chunks s' /\ measure c s' <= measure c s /\
+             (step_w c s <> None -> measure c s' < measure c s).
+Proof.
+  intros Hc HI. unfold poll_w. pose proof (measure_lt_fuel c s) as Hf.
+  destruct (wst s) eqn:Ew.
+  - destruct (poll_w_loop_total chunks (poll_fuel s) c s Hc HI ltac:(lia)) as [s' [H1 [H2 [H3 H4]]]].
+    exists s'. split; [assumption|]. split; [assumption|]. split; [assumption|].
+    intros _. apply H4. auto.
+  - (* WWait *)
+    set (s0 := mkX (cur s) (rest s) (pp s) (recvd s) WTry (rst s)).
+    destruct (ready_w c (pp s)) eqn:Er.
+    + (* the regular wake-up *)
+      assert (Es : step_w c s = Some s0) by (unfold step_w; rewrite Ew, Er; reflexivity).
+      destruct (step_w_ok c chunks s s0 Hc HI Es) as [HI0 Hm0].
+      destruct (poll_w_loop_total chunks (poll_fuel s) c s0 Hc HI0 ltac:(lia)) as [s' [H1 [H2 [H3 _]]]].
+      exists s'. split; [assumption|]. split; [assumption|]. split; [lia|]. intros _; lia.
+    + (* a spurious one *)
+      assert (Es : step c s LSpurW = Some s0) by (cbn [step]; rewrite Ew; reflexivity).
+      destruct (step_spur_ok c chunks s LSpurW s0 HI eq_refl Es) as [HI0 Hm0].
+      destruct (poll_w_loop_total chunks (poll_fuel s) c s0 Hc HI0 ltac:(lia)) as [s' [H1 [H2 [H3 H4]]]].
+      specialize (H4 (or_introl eq_refl)).
+      exists s'. split; [assumption|]. split; [assumption|]. split; [lia|].
+      intros Hn. exfalso. apply Hn. unfold step_w. rewrite Ew, Er. reflexivity.
+  - destruct (poll_w_loop_total chunks (poll_fuel s) c s Hc HI ltac:(lia)) as [s' [H1 [H2 [H3 H4]]]].
+    exists s'. split; [assumption|]. split; [assumption|]. split; [assumption|].
+    intros _. apply H4. auto.
+  - exists s. unfold poll_fuel. cbn [poll_w_loop Nat.add]. rewrite Nat.add_comm. cbn [Nat.add poll_w_loop].
+    rewrite Ew. split; [reflexivity|]. split; [assumption|]. split; [lia|].
+    intros Hn. exfalso. apply Hn. unfold step_w. rewrite Ew. reflexivity.
+  - exists s. unfold poll_fuel. rewrite Nat.add_comm. cbn [Nat.add poll_w_loop].
+    rewrite Ew. split; [reflexivity|]. split; [assumption|]. split; [lia|].
+    intros Hn. exfalso. apply Hn. unfold step_w. rewrite Ew. reflexivity.
+Qed.
+
+Lemma step_r_some s cap : rst s = RTry -> step_r s cap <> None.
+Proof.
+  unfold step_r. intros ->. destruct (fifo_read (pp s) cap) as [[[|b bs]|] p']; discriminate.
+Qed.
+
+Lemma poll_r_loop_total c chunks fuel : forall s caps dflt,
+  cfg_ok c -> Inv c chunks s -> Forall (fun n => 1 <= n) caps -> 1 <= dflt ->
+  measure c s < fuel ->
+  exists s' caps', poll_r_loop fuel s caps dflt = Some (s', caps') /\ Inv c chunks s' /\
+                   measure c s' <= measure c s /\ (rst s = RTry -> measure c s' < measure c s).
+Proof.
+  induction fuel as [|fuel IH]; intros s caps dflt Hc HI Hcaps Hd Hm; [lia|].
+  cbn [poll_r_loop].
+  destruct (rst s) eqn:Er.
+  - assert (Hcap : exists cap caps', (match caps with [] => (dflt, []) | x :: r => (x, r) end) = (cap, caps')
+                   /\ 1 <= cap /\ Forall (fun n => 1 <= n) caps').
+    { destruct caps as [|x r]; [exists dflt, []; auto|].
+      inversion Hcaps; subst. exists x, r; auto. }
+    destruct Hcap as [cap [caps' [-> [Hc1 Hcaps']]]].
+    destruct (step_r s cap) as [s1|] eqn:Es; [|exfalso; apply (step_r_some s cap); auto].
+    destruct (step_r_ok c chunks s cap s1 Hc HI Hc1 Es) as [HI1 Hm1].
+    destruct (IH s1 caps' dflt Hc HI1 Hcaps' Hd ltac:(lia)) as [s' [cl [H1 [H2 [H3 _]]]]].
+    exists s', cl. split; [assumption|]. split; [assumption|]. split; [lia|]. intros _; lia.
+  - exists s, caps. split; [reflexivity|]. split; [assumption|]. split; [lia|]. discriminate.
+  - exists s, caps. split; [reflexivity|]. split; [assumption|]. split; [lia|]. discriminate.
+Qed.
+
+Definition reader_enabled (s : xstate) : bool :=
+  match rst s with RTry => true | RWait => ready_r (pp s) | RDone => false end.
+
+Lemma poll_r_total c chunks s caps dflt :
+  cfg_ok c -> Inv c chunks s -> Forall (fun n => 1 <= n) caps -> 1 <= dflt ->
+  exists s' caps', poll_r s caps dflt = Some (s', caps') /\ Inv c chunks s' /\
+                   measure c s' <= measure c s /\
+                   (reader_enabled s = true -> measure c s' < measure c s).
+Proof.
+  intros Hc HI Hcaps Hd. unfold poll_r, reader_enabled. pose proof (measure_lt_fuel c s) as Hf.
+  destruct (rst s) eqn:Er.
+  - destruct (poll_r_loop_total c chunks (poll_fuel s) s caps dflt Hc HI Hcaps Hd ltac:(lia))
+      as [s' [cl [H1 [H2 [H3 H4]]]]].
+    exists s', cl. split; [assumption|]. split; [assumption|]. split; [assumption|]. intros _. auto.
+  - set (s0 := mkX (cur s) (rest s) (pp s) (recvd s) (wst s) RTry).
+    destruct (ready_r (pp s)) eqn:Erd.
+    + assert (Es : step_r s 1 = Some s0) by (unfold step_r; rewrite Er, Erd; reflexivity).
+      destruct (step_r_ok c chunks s 1 s0 Hc HI ltac:(lia) Es) as [HI0 Hm0].
+      destruct (poll_r_loop_total c chunks (poll_fuel s) s0 caps dflt Hc HI0 Hcaps Hd ltac:(lia))
+        as [s' [cl [H1 [H2 [H3 _]]]]].
+      exists s', cl. split; [assumption|]. split; [assumption|]. split; [lia|]. intros _; lia.
+    + assert (Es : step c s LSpurR = Some s0) by (cbn [step]; rewrite Er; reflexivity).
+      destruct (step_spur_ok c chunks s LSpurR s0 HI eq_refl Es) as [HI0 Hm0].
+      destruct (poll_r_loop_total c chunks (poll_fuel s) s0 caps dflt Hc HI0 Hcaps Hd ltac:(lia))
+        as [s' [cl [H1 [H2 [H3 H4]]]]].
+      specialize (H4 eq_refl).
+      exists s', cl. split; [assumption|]. split; [assumption|]. split; [lia|]. discriminate.
+  - exists s, caps. unfold poll_fuel. rewrite Nat.add_comm. cbn [Nat.add poll_r_loop]. rewrite Er.
+    split; [reflexivity|]. split; [assumption|]. split; [lia|]. discriminate.
+Qed.
+
+(* steps of the writer never disable the reader *)
+Lemma ready_r_app b x rr wr :
+  ready_r (mkPipe b rr wr) = true -> ready_r (mkPipe (b ++ x) rr wr) = true.
+Proof.
+  unfold ready_r, wopen; cbn [buf wrefs]. rewrite app_length.
+  destruct (negb (0 <? wr)); [reflexivity|]. cbn [orb].
+  destruct (Nat.eqb_spec (length b) 0); [discriminate|]. intros _.
+  destruct (Nat.eqb_spec (length b + length x) 0); [lia | reflexivity].
+Qed.
+
+Lemma ready_r_close b rr wr :
+  ready_r (mkPipe b rr wr) = true -> ready_r (mkPipe b rr (pred wr)) = true.
+Proof.
+  unfold ready_r, wopen; cbn [buf wrefs].
+  destruct wr as [|[|w]]; cbn; auto.
+Qed.
+
+Lemma writer_step_keeps_reader c s l s' :
+  (l = LW \/ l = LSpurW) -> step c s l = Some s' ->
+  reader_enabled s = true -> reader_enabled s' = true.
+Proof.
+  intros Hl Hs. unfold reader_enabled.
+  destruct s as [cu re [b rr wr] rc ws rs]. cbn [rst pp].
+  assert (Happ : forall x, match rs with RTry => true | RWait => ready_r (mkPipe b rr wr) | RDone => false end = true ->
+                           match rs with RTry => true | RWait => ready_r (mkPipe (b ++ x) rr wr) | RDone => false end = true)
+    by (intros x; destruct rs; auto; apply ready_r_app).
+  destruct Hl as [-> | ->]; cbn [step] in Hs.
+  - unfold step_w in Hs; cbn [cur rest pp recvd wst rst] in Hs.
+    destruct ws; try discriminate.
+    + destruct cu as [|x cu].
+      * destruct re; apply Some_inj in Hs; subst s'; cbn [rst pp]; auto.
+      * unfold fifo_write, set_buf in Hs; cbn [buf rrefs wrefs] in Hs.
+        destruct (negb (ropen {| buf := b; rrefs := rr; wrefs := wr |}));
+          [apply Some_inj in Hs; subst s'; cbn [rst pp]; auto|].
+        destruct (psize c <? length b); [apply Some_inj in Hs; subst s'; cbn [rst pp]; auto|].
+        destruct (psize c - length b <? length (x :: cu)).
+        -- destruct ((psize c - length b =? 0) || (length (x :: cu) <=? pbuf c));
+             [apply Some_inj in Hs; subst s'; cbn [rst pp]; auto|].
+           destruct (psize c - length b) as [|room'];
+             cbv beta match in Hs; apply Some_inj in Hs; subst s'; cbn [rst pp]; apply Happ.
+        -- remember (length (x :: cu)) as n eqn:En. cbn [length] in En. subst n.
+           cbv beta match in Hs. apply Some_inj in Hs; subst s'; cbn [rst pp]. apply Happ.
+    + destruct (ready_w c {| buf := b; rrefs := rr; wrefs := wr |}); [|discriminate].
+      apply Some_inj in Hs; subst s'; cbn [rst pp]; auto.
+    + apply Some_inj in Hs; subst s'; cbn [rst pp buf rrefs wrefs].
+      destruct rs; auto. apply ready_r_close.
+  - cbn [wst] in Hs. destruct ws; try discriminate. apply Some_inj in Hs; subst s'; cbn [rst pp]; auto.
+Qed.
+
+Lemma writer_run_keeps_reader c ls : forall s s',
+  Forall (fun l => l = LW \/ l = LSpurW) ls -> run c s ls = Some s' ->
+  reader_enabled s = true -> reader_enabled s' = true.
+Proof.
+  induction ls as [|l ls IH]; intros s s' Hls Hr He; cbn [run] in Hr.
+  - apply Some_inj in Hr. subst. assumption.
+  - destruct (step c s l) as [s1|] eqn:E; [|discriminate].
+    inversion Hls; subst. eapply IH; eauto. eapply writer_step_keeps_reader; eauto.
+Qed.
+
+Lemma pump_total chunks fuel : forall c cap s,
+  cfg_ok c -> 1 <= cap -> Inv c chunks s -> measure c s < fuel ->
+  pump fuel c cap s = Some (concat chunks).
+Proof.
+  induction fuel as [|fuel IH]; intros c cap s Hc Hcap HI Hm; [lia|].
+  cbn [pump]. destruct (finished s) eqn:Hf.
+  - f_equal. eapply inv_finished_complete; eauto.
+  - destruct (poll_w_total chunks c s Hc HI) as [s1 [H1 [HI1 [Hm1 Hs1]]]].
+    rewrite H1.
+    destruct (poll_r_total c chunks s1 [] cap Hc HI1 ltac:(constructor) Hcap) as [s2 [cl [H2 [HI2 [Hm2 Hs2]]]]].
+    rewrite H2. apply IH; auto.
+    destruct (step_w c s) as [sw|] eqn:Ew.
+    + assert (measure c s1 < measure c s) by (apply Hs1; discriminate). lia.
+    + (* the writer cannot move: the reader can *)
+      destruct (inv_no_deadlock c chunks s Hc HI Hf) as [l [Hl Hne]].
+      assert (Hre : reader_enabled s = true).
+      { destruct l as [|k| |]; cbn [proper step] in *; try contradiction; try congruence.
+        unfold reader_enabled. unfold step_r in Hne. destruct (rst s); auto.
+        destruct (ready_r (pp s)); [reflexivity | contradiction]. }
+      destruct (poll_w_run c s s1 H1) as [ls [Hls Hrun]].
+      pose proof (writer_run_keeps_reader c ls s s1 Hls Hrun Hre) as Hre1.
+      specialize (Hs2 Hre1). lia.
+Qed.
+
+Lemma chunked_concat chunk l : concat (chunked chunk l) = l.
+Proof.
+  unfold chunked. destruct (chunk =? 0); [cbn; apply app_nil_r|].
+  remember (length l) as n eqn:Hn. clear Hn. revert l.
+  induction n as [|n IH]; intros l; cbn [chunks_of]; [cbn; apply app_nil_r|].
+  destruct l as [|x t]; [reflexivity|]. cbn [concat]. rewrite IH. apply firstn_skipn.
+Qed.
+
+Lemma through_pipe_identity c chunk cap l :
+  cfg_ok c -> through_pipe c chunk cap l = Some l.
+Proof.
+  intros Hc. unfold through_pipe.
+  rewrite (pump_total (chunked chunk l)); [rewrite chunked_concat; reflexivity | assumption | lia | apply inv_init |].
+  pose proof (measure_init c (chunked chunk l)). lia.
+Qed.
+
+Lemma through_pipes_identity n : forall c chunk cap l,
+  cfg_ok c -> through_pipes n c chunk cap l = Some l.
+Proof.
+  induction n as [|n IH]; intros c chunk cap l Hc; [reflexivity|].
+  cbn [through_pipes]. rewrite through_pipe_identity by assumption. apply IH. assumption.
+Qed.
+
+Lemma model_route_is_spec c r l :
+  cfg_ok c -> model_route c r l = Some (spec_route r l).
+Proof.
+  intros Hc. destruct r as [stages chunk cap| |cap]; cbn [model_route spec_route].
+  - apply through_pipes_identity. assumption.
+  - rewrite through_pipe_identity by assumption. f_equal. apply strip_nl_as_trailing_lemma.
+  - apply heredoc_bytes_exact_lemma; [constructor | lia].
+Qed.
